@@ -127,52 +127,52 @@ func (a absVal) eq(b absVal) bool {
 }
 
 type writeSite struct {
-	fn    *ssa.Function
-	instr ssa.Instruction
-	ord   int
-	what  string
-	reg   region // atoms of fn (Shared / own params)
-	pos   string
+	fn        *ssa.Function
+	instr     ssa.Instruction
+	ord       int
+	what      string
+	reg       region // atoms of fn (Shared / own params)
+	pos       string
 	viaCallee string
-	kind  string // "ref" or "slot"
+	kind      string // "ref" or "slot"
 }
 
 type fsum struct {
-	fn        *ssa.Function
-	vals      map[ssa.Value]absVal
-	cells     map[ssa.Value]absVal // content of containers allocated by this function (Alloc, MakeSlice, MakeMap), flow- and field-insensitive
-	ret       []absVal
-	writesRef region // param atoms whose referent is written (transitively)
-	writesSlot region
-	sites     []*writeSite
-	qualBad   []*writeSite // stores of non-owned values into fields declared owned
+	fn           *ssa.Function
+	vals         map[ssa.Value]absVal
+	cells        map[ssa.Value]absVal // content of containers allocated by this function (Alloc, MakeSlice, MakeMap), flow- and field-insensitive
+	ret          []absVal
+	writesRef    region // param atoms whose referent is written (transitively)
+	writesSlot   region
+	sites        []*writeSite
+	qualBad      []*writeSite // stores of non-owned values into fields declared owned
 	unknownCalls []string
-	escSites  []*writeSite // stores that make a reference-like value reachable from the heap (tracked for the lock-guarded registry)
-	escapes   region       // parameter atoms whose referent may be stored into the heap
-	paramIn   []absVal // join of actual arguments over all call sites (caller atoms resolved to taint below)
+	escSites     []*writeSite // stores that make a reference-like value reachable from the heap (tracked for the lock-guarded registry)
+	escapes      region       // parameter atoms whose referent may be stored into the heap
+	paramIn      []absVal     // join of actual arguments over all call sites (caller atoms resolved to taint below)
 }
 
 type frameAnalysis struct {
-	p        *program
-	sums     map[*ssa.Function]*fsum
-	order    []*ssa.Function
-	roots    []*ssa.Function
-	ownedFields map[string]bool // "pkg.Type.field"
-	sharedFields map[string]bool
-	ownedTypes map[string]bool // evaluation-only pointer types, e.g. "*jsonata.sequence"
-	changed  bool
-	impls    map[string][]*ssa.Function // interface method name -> implementations in the repo
+	p              *program
+	sums           map[*ssa.Function]*fsum
+	order          []*ssa.Function
+	roots          []*ssa.Function
+	ownedFields    map[string]bool // "pkg.Type.field"
+	sharedFields   map[string]bool
+	ownedTypes     map[string]bool // evaluation-only pointer types, e.g. "*jsonata.sequence"
+	changed        bool
+	impls          map[string][]*ssa.Function // interface method name -> implementations in the repo
 	fnParamTargets map[*ssa.Parameter]map[*ssa.Function]bool
-	taintRef map[*ssa.Function]region // params (atoms) that may be bound to shared memory in some call chain from a root
-	taintSlot map[*ssa.Function]region
-	notes    []string
-	closureParent map[*ssa.Function]*ssa.Function
-	rootSet  map[*ssa.Function]bool
+	taintRef       map[*ssa.Function]region // params (atoms) that may be bound to shared memory in some call chain from a root
+	taintSlot      map[*ssa.Function]region
+	notes          []string
+	closureParent  map[*ssa.Function]*ssa.Function
+	rootSet        map[*ssa.Function]bool
 	addrTakenCache []*ssa.Function
-	freshResult map[string]bool
-	zeroGlobals map[*ssa.Global]bool
-	dynTypesCache []types.Type
-	bad      region // rShared: ownership mode (default); rGlobal: "no write to package-level state" mode
+	freshResult    map[string]bool
+	zeroGlobals    map[*ssa.Global]bool
+	dynTypesCache  []types.Type
+	bad            region // rShared: ownership mode (default); rGlobal: "no write to package-level state" mode
 }
 
 func typeKey(t types.Type) string {
